@@ -149,3 +149,57 @@ func replaceAll(w, s string) string {
 	}
 	return out
 }
+
+// RecursionPrograms: self-recursive definitions whose recursive call LOOKS like a tail call but is not one for the
+// interpreter — functions with `$value` parameters whose later arguments read earlier parameters, and calls that end a
+// try body, an optional, an alternative, a label or a reduce — each followed by something that can tell the
+// difference (an accumulator, an error raised behind the call).
+func RecursionPrograms() []string {
+	core := []string{
+		"def f($n; $acc): if $n == 0 then $acc else f($n - 1; $acc + $n) end; f(3; 0)",
+		"def fib($n; $a; $b): if $n == 0 then $a else fib($n - 1; $b; $a + $b) end; fib(10; 0; 1)",
+		"def f($n; $acc): if $n <= 0 then $acc else f($n - 1; [$n] + $acc) end; f(4; [])",
+		"def f($a; $b; $c): if $a >= 3 then [$a, $b, $c] else f($a + 1; $a; $b) end; f(0; \"b\"; \"c\")",
+		"def f($n): if $n == 0 then . else (. + $n | f($n - 1)) end; 0 | f(4)",
+		"def f(g; $n): if $n == 0 then g else f(g + 1; $n - 1) end; f(0; 3)",
+		"def f($n; g): if $n == 0 then g else f($n - 1; g * 2) end; f(3; 1)",
+		"def f($x; $y): if $x > 2 then $y else f($x + 1; $y + [$x]), \"side\" end; [f(0; [])]",
+		"def f($n; $acc): if $n == 0 then $acc else ($n, f($n - 1; $acc + $n)) end; [f(3; 0)]",
+		"def f($n; $acc): $n as $m | if $m == 0 then $acc else f($m - 1; $acc + $m) end; f(3; 0)",
+		"def f($n; $acc): if $n == 0 then $acc else f($n - 1; $acc + ($n | . * 2)) end; f(3; 0)",
+		"def f($a; $b): if $a == 0 then $b else f($a - 1; $a + $b) | . + 0 end; f(3; 0)",
+		"def f($n; $acc): if $n == 0 then $acc elif $n % 2 == 0 then f($n - 1; $acc + $n) else f($n - 1; $acc - $n) end; f(5; 0)",
+		"def f($n; $acc): label $l | if $n == 0 then $acc else f($n - 1; $acc + $n) end; f(3; 0)",
+		"def f($n; $acc): def g: $acc + $n; if $n == 0 then $acc else f($n - 1; g) end; f(3; 0)",
+		"def f($p): def g($q): if $q == 0 then $p else g($q - 1) end; g($p); f(3)",
+		"def f($n; $acc): if $n == 0 then $acc else f($n - 1; $acc + $n) end; [f(2, 3; 0, 10)]",
+		"def f($a; $b): if $a > 3 then [$a, $b] else f($b; $a + $b) end; f(1; 1)",
+		"def f($a; $b): if ($a | length) > 2 then $b else f($a + [$b]; $a | length) end; f([]; 0)",
+		"def f($n; $acc): . as $in | if $n == 0 then [$in, $acc] else ($in + 1 | f($n - 1; $acc + [$in])) end; 0 | f(3; [])",
+		"def f: try (if . >= 3 then . else (. + 1 | f) end) catch \"caught\"; 0 | f | if . == 3 then error(\"x\") else . end",
+		"def f: (if . >= 3 then . else (. + 1 | f) end)?; [0 | f | if . == 3 then error(\"x\") else . end]",
+		"def f: try (if . >= 3 then error(\"in\") else (. + 1 | f) end) catch \"c\\(.)\"; 0 | f",
+		"def f: try (if . >= 3 then ., error(\"late\") else (. + 1 | f) end) catch \"caught\"; [0 | f]",
+		"def f: try (. + 1 | if . < 3 then f else . end) catch .; [0 | f | ., error(\"down\")]?",
+		"def f: (.a? | f)? // .; {a: {a: 1}} | f",
+		"def f: try (if . > 2 then . else . + 1 | f end); try (0 | f | error) catch \"outer\"",
+		"def f: label $l | try (if . >= 3 then ., break $l else (. + 1 | f) end) catch \"c\"; [0 | f]",
+		"def f: try (if . >= 2 then . else (. + 1 | f) end) catch \"c\"; [0, 1 | f] | map(if . == 2 then error(\"y\") else . end)?",
+		"def f: first(if . >= 3 then . else (. + 1 | f) end); [0 | f, error(\"z\")]?",
+		"def f: (if . >= 3 then . else (. + 1 | f) end) // \"alt\"; 0 | f | if . == 3 then error(\"x\") else . end",
+		"def f: reduce 1 as $i (.; if . >= 3 then . else (. + 1 | f) end); 0 | f",
+		"def f: if . >= 3 then . else (. + 1 | f) end | . + 0; 0 | f",
+		"def f: [if . >= 3 then . else (. + 1 | f) end] | .[0]; 0 | f",
+		"def f: try (if . >= 3 then . else (. + 1 | f) end) catch \"caught\"; [0 | f] | .[0] | error",
+		"def f: ((. + 1 | select(. < 4) | f), .)?; [0 | f | if . == 2 then error(\"mid\") else . end]",
+		"def f: try ((. + 1 | select(. < 3) | f), .) catch \"c\"; [0 | f | ., (select(. == 1) | error(\"one\"))]",
+		"def f: . as [$h, $t] | try (if $t == null then $h else ($t | f) end) catch \"c\"; [1, [2, [3, null]]] | f | error",
+		"def f: try (.[0] | f) catch \"leaf\"; [[[[1]]]] | f | ascii_downcase | error",
+		"def f: (.[0] | f)?, \"after\"; [[[1]]] | [f]",
+	}
+	var out []string
+	for _, p := range core {
+		out = append(out, p, "try ("+p+") catch \"top: \\(.)\"", "["+p+"]?", "[limit(3; "+p+")]?", "(1, 2) as $k | "+p+" | [$k, .]?")
+	}
+	return out
+}
